@@ -22,7 +22,8 @@ RULE = ("End to end: Hypothesis draws run configurations (N in 1..4, W in 1..7 o
         "KeyError/IndexError/AttributeError/NameError/TypeError on a valid input is reported (no labels were returned). "
         "Non-trivial = completed run with W>=2 (a margin exists); joint runs with >=2 distinct lengths are "
         "counted separately; distinct by SHA-1 of the case."
-        ' Joint runs: block i of the stacked data must be the stacking of input series i (input order). Series with fewer rows than sensors; cost vectors with exact zeros; the multiprocessing switch as a run option.')
+        ' Joint runs: block i of the stacked data must be the stacking of input series i (input order). Series with fewer rows than sensors; cost vectors with exact zeros; the multiprocessing switch as a run option.'
+        ' Calls also positional (data, W, K) and with tuple / generator / iterator containers.')
 ASSUMPTIONS = ["the master labelling is observed through the guarded run_end hook", "data are finite"]
 
 
